@@ -528,8 +528,10 @@ func bigFloatToFloat64(val *big.Float) (float64, error) {
 func float64ToBigFloat(val float64, dest *big.Float) error {
 	if math.IsNaN(val) {
 		return errValueOutOfRange(val)
+	} else if dest.SetFloat64(val); dest.Acc() != big.Exact {
+		// the destination had a precision of its own and it is too small to hold val: report it instead of rounding
+		return errValueOutOfRange(val)
 	} else {
-		dest.SetFloat64(val)
 		return nil
 	}
 }
